@@ -1,2 +1,3 @@
 pub mod bridge;
+pub mod matconv;
 pub mod sched;
